@@ -194,6 +194,61 @@ def extractLoop (pred : Nat → Job → Bool) (report : Bool) :
 def JobList.removeIf (s : JobList) (pred : Nat → Job → Bool) (report : Bool) : List Nat × JobList :=
   extractLoop pred report (s.entries.length + 1) 0 s.len s []
 
+/-- `JobList::remove_if`: `self.extract_if(should_remove).for_each(drop)` — the drain of `extract_if`
+    with the removed jobs thrown away -/
+def JobList.removeIfDrop (s : JobList) (pred : Nat → Job → Bool) (report : Bool) : JobList :=
+  (s.removeIf pred report).2
+
+/-- `extract_if(should_remove).take(n)`: the iterator is advanced `n` times (each `next` scans up to
+    and including the next job it removes) and then dropped — "If the returned iterator is dropped
+    before iterating all jobs, the remaining jobs are retained in the list."  Same loop as
+    `extractLoop` with the number of `next` calls left as second counter. -/
+def extractLoopN (pred : Nat → Job → Bool) (report : Bool) :
+    Nat → Nat → Nat → Nat → JobList → List Nat → List Nat × JobList
+  | 0, _, _, _, s, acc => (acc.reverse, s)
+  | _, 0, _, _, s, acc => (acc.reverse, s)
+  | _, _, _, 0, s, acc => (acc.reverse, s)
+  | fuel+1, n+1, idx, len+1, s, acc =>
+    match gets s.entries idx with
+    | none => extractLoopN pred report fuel (n+1) (idx+1) (len+1) s acc
+    | some j =>
+      let s1 := if report then { s with entries := s.entries.set idx (some { j with changed := false }) } else s
+      if pred idx j then
+        extractLoopN pred report fuel n (idx+1) len (s1.remove idx).2 (idx :: acc)
+      else
+        extractLoopN pred report fuel (n+1) (idx+1) len s1 acc
+
+def JobList.extractTake (s : JobList) (n : Nat) (pred : Nat → Job → Bool) (report : Bool) : List Nat × JobList :=
+  extractLoopN pred report (s.entries.length + 1) n 0 s.len s []
+
+/-- removal predicates the harness can name (the closure passed to `remove_if` / `extract_if`); the
+    theorems about `removeIf` quantify over every function `Nat → Job → Bool`, this is only the
+    syntax of the case language -/
+inductive RmPred where
+  | done            -- `!job.state.is_alive()`
+  | changedDone     -- `job.state_changed && !job.state.is_alive()`
+  | all
+  | nothing
+  | suspended       -- `job.state.is_stopped()`
+  | running         -- `job.state == Running`
+  | alive
+  | unowned         -- `!job.is_owned`
+  | mask (m : Nat)  -- bit `index` of `m`
+  | pid (p : Nat)   -- `job.pid == p`
+  deriving DecidableEq, Repr
+
+def RmPred.eval : RmPred → Nat → Job → Bool
+  | .done, _, j => !j.state.isAlive
+  | .changedDone, _, j => j.changed && !j.state.isAlive
+  | .all, _, _ => true
+  | .nothing, _, _ => false
+  | .suspended, _, j => j.state.isStopped
+  | .running, _, j => j.state == .running
+  | .alive, _, j => j.state.isAlive
+  | .unowned, _, j => !j.owned
+  | .mask m, i, _ => m.testBit i
+  | .pid p, _, j => j.pid == p
+
 /-- the "reselect the current and previous job" tail of `update_status`; returns (cur, prev) -/
 def reselectUpdate (es : Slab) (was now : Bool) (index cur prev : Nat) : Nat × Nat :=
   if was = false ∧ now = true then
@@ -230,6 +285,15 @@ def JobList.disownAll (s : JobList) : JobList :=
 /-- `iter_mut` + `state_reported` on every job -/
 def JobList.reportAll (s : JobList) : JobList :=
   { s with entries := s.entries.map (fun o => o.map (fun j => { j with changed := false })) }
+
+/-- `get_mut(i).state_reported()` -/
+def JobList.reportOne (s : JobList) (i : Nat) : JobList :=
+  match gets s.entries i with
+  | none => s
+  | some j => { s with entries := s.entries.set i (some { j with changed := false }) }
+
+/-- `JobList::add` (deprecated since 0.15.0): "This function is an alias for `insert`" -/
+def JobList.add (s : JobList) (job : Job) : Nat × JobList := s.insert job
 
 /-- `get_mut(i).expect(st)` -/
 def JobList.expect (s : JobList) (i : Nat) (st : Option PState) : JobList :=
